@@ -145,8 +145,40 @@ class TreeTyper:
     def ev_FormattedValue(self, e, env, facts):
         return self.ev(e.value, env, facts)
 
+    def _static_len_test(self, test, env, facts):
+        """Decide `len(<find_data list>) OP k` from the grammar's count bounds (None = undecided)."""
+        if isinstance(test, ast.Compare) and len(test.ops) == 1 and isinstance(test.left, ast.Call) and isinstance(test.left.func, ast.Name) \
+                and test.left.func.id == "len" and len(test.left.args) == 1 and isinstance(test.comparators[0], ast.Constant) \
+                and isinstance(test.comparators[0].value, int):
+            try:
+                v = self.ev(test.left.args[0], env, facts)
+            except AttrErr:
+                return None
+            if v.kind == "list" and isinstance(v.const, tuple) and v.const and v.const[0] == "count":
+                lo, hi = v.const[1], v.const[2]
+                k, op = test.comparators[0].value, type(test.ops[0])
+                poss = [n for n in range(lo, min(hi, lo + 50) + 1)]
+                f = {ast.Eq: lambda n: n == k, ast.NotEq: lambda n: n != k, ast.Gt: lambda n: n > k, ast.GtE: lambda n: n >= k,
+                     ast.Lt: lambda n: n < k, ast.LtE: lambda n: n <= k}.get(op)
+                if f is None:
+                    return None
+                res = {f(n) for n in poss}
+                if hi > lo + 50:
+                    return None
+                if res == {True}:
+                    return True
+                if res == {False}:
+                    return False
+        return None
+
     def ev_IfExp(self, e, env, facts):
         t = txt(e.test)
+        st = self._static_len_test(e.test, env, facts)
+        if st is True:
+            return self.ev(e.body, env, facts + (("T", t),))
+        if st is False:
+            self.err(f"`{txt(e)[:90]}`: the test `{t}` can never hold for any tree of the grammar, so the branch `{txt(e.body)[:40]}` is dead")
+            return self.ev(e.orelse, env, facts + (("F", t),))
         self.ev(e.test, env, facts)
         a = self.ev(e.body, env, facts + (("T", t),))
         b = self.ev(e.orelse, env, facts + (("F", t),))
@@ -208,7 +240,17 @@ class TreeTyper:
         f2 = self._comp(e, env, facts, e.elt)
         filt = "filtered" if any(g.ifs for g in e.generators) else ""
         kind = "set" if isinstance(e, ast.SetComp) else ""
-        return V("list", elem=self.ev(e.elt, env, f2), path=(kind + filt) or "list")
+        # a comprehension over a sliced / sorted / de-duplicated source inherits that marker
+        marks = []
+        for g in e.generators:
+            try:
+                src = self.ev(g.iter, env, facts)
+            except AttrErr:
+                continue
+            for a in alts(src):
+                if a.kind == "list" and a.path not in ("list", "", "items", "keys", "values", "enumerate"):
+                    marks.append(a.path)
+        return V("list", elem=self.ev(e.elt, env, f2), path=(kind + filt + "".join(marks)) or "list")
 
     ev_SetComp = ev_ListComp
     ev_GeneratorExp = ev_ListComp
@@ -345,15 +387,24 @@ class TreeTyper:
                 for w in sorted(a.words):
                     for j, s in enumerate(w[lo:hi]):
                         elems.append(self.sym(s, f"{a.path}/[{txt(sl)}]:{s[1]}"))
-                return V("list", elem=union(elems) if elems else V("none", path="∅"), path=f"{a.path}/[{txt(sl)}]")
+                return V("list", elem=union(elems) if elems else V("none", path="∅"), path="list")   # the slice is part of the element paths
             # dynamic index (loop variable): union of all children
             return self._elem(a)
         if a.kind == "list":
             if isinstance(sl, ast.Slice):
                 pre = "" if a.path in ("list", "") else a.path
                 return replace(a, path=f"{pre}[{txt(sl)}]")
-            # element access: emptiness matters
-            if a.const is not None and a.const == "maybe-empty" and not self._nonempty_fact(e.value, facts):
+            # element access: emptiness / count bounds matter
+            if isinstance(a.const, tuple) and a.const and a.const[0] == "count":
+                lo, hi = a.const[1], a.const[2]
+                i = _const(sl, None)
+                if i is not None and ((i >= 0 and i >= hi) or (i < 0 and -i > hi)):
+                    self.err(f"`{txt(e)[:80]}`: index {i} but a node has at most {hi} such sub-tree(s) (IndexError on every input)")
+                elif lo == 0 and not self._nonempty_fact(e.value, facts):
+                    self.err(f"`{txt(e)[:80]}`: indexing a find_data() result that can be empty, without a length guard (IndexError)")
+                elif i is not None and i > 0 and i >= lo and not self._nonempty_fact(e.value, facts):
+                    self.err(f"`{txt(e)[:80]}`: index {i} but only {lo} such sub-tree(s) are guaranteed (IndexError)")
+            elif a.const is not None and a.const == "maybe-empty" and not self._nonempty_fact(e.value, facts):
                 self.err(f"`{txt(e)[:80]}`: indexing a find_data() result that can be empty, without a length guard (IndexError)")
             return a.elem or UNKNOWN
         if a.kind == "tuple":
@@ -378,7 +429,12 @@ class TreeTyper:
                     outs.append(self.sym(s, f"{a.path}/*:{s[1]}"))
             return union(outs) if outs else V("none", path="∅")
         if a.kind in ("list",):
-            return a.elem or UNKNOWN
+            el = a.elem or UNKNOWN
+            mark = "" if a.path in ("list", "", "items", "keys", "values", "enumerate") else a.path
+            if mark and el.kind != "none":
+                # elements of a sliced / sorted / filtered / de-duplicated sequence: keep the marker
+                return union([replace(x, path=f"{x.path}@{mark}") for x in alts(el)])
+            return el
         if a.kind == "tuple":
             return union(list(a.items)) if a.items else UNKNOWN
         if a.kind == "dict":
@@ -476,8 +532,11 @@ class TreeTyper:
         if a.kind != "tree":
             self.err(f"`{txt(e)[:80]}`: find_data on a {a.kind}")
             return UNKNOWN
-        lo = min(self.min_count(n, lit) for n in a.names) if "start" not in a.names else 0
-        return V("list", elem=self.tree(lit, f"{a.path}//{lit}"), path="list", const=None if lo >= 1 else "maybe-empty")
+        if "start" in a.names:
+            return V("list", elem=self.tree(lit, f"{a.path}//{lit}"), path="list", const="maybe-empty")
+        lo = min(self.min_count(n, lit) for n in a.names)
+        hi = max(self.max_count(n, lit) for n in a.names)
+        return V("list", elem=self.tree(lit, f"{a.path}//{lit}"), path="list", const=("count", lo, hi))
 
     def min_count(self, root: str, target: str, _seen=None) -> int:
         """Minimum number of nodes named target in a subtree rooted at a node named root."""
@@ -493,6 +552,23 @@ class TreeTyper:
                     c += self.min_count(n, target, _seen | {root})
             best = c if best is None else min(best, c)
         return base + (best or 0)
+
+    def max_count(self, root: str, target: str, _seen=None) -> int:
+        """Maximum number of nodes named target in a subtree rooted at root (999 = unbounded)."""
+        _seen = _seen or frozenset()
+        if root in _seen:
+            return 999
+        base = 1 if root == target else 0
+        best = 0
+        for w in self.gf.rule_words(root):
+            c = 0
+            for k, n in w:
+                if k == "T":
+                    c += self.max_count(n, target, _seen | {root})
+            best = max(best, c)
+        if self.gf.unbounded(root) and any(k == "T" and (n == target or self.max_count(n, target, _seen | {root}) > 0) for w in self.gf.rule_words(root) for k, n in w):
+            return 999
+        return min(999, base + best)
 
     def _call_user(self, r, e: ast.Call, env, facts) -> V:
         ff, flow = r
